@@ -19,7 +19,7 @@ Open Scope R_scope.
    give the fractional year yr: index k = round((yr - y0) * rate, 0) + target offset; result = Epoch(mean(k) + periodic terms)
    [+ Angle(parallax) / Angle(declination)]; and |result - (J0 + B k)| <= C while -41 <= k/cc <= 21 with 2C < B (interval
    arithmetic on the proved coefficients).  The expensive targets (perigee, northern/southern maximum declination: 5-7 min and 6-8 GB each) are
-   stated in C15_heavy.v, compiled in the thorough tier only; moon_phase (4 targets) is not covered (> 40 min / 6 GB each). *)
+   stated in C15_heavy.v, compiled in the thorough tier only; moon_phase (4 targets): C15_s3.v (C15_p_moon_phase_*.v, evaluated with C15_tac3). *)
 Theorem C15_moon_passage_nodes_ascending : C15_f_moon_passage_nodes_ascending.closed_stmt /\ timing C15_f_moon_passage_nodes_ascending.J0 C15_f_moon_passage_nodes_ascending.B C15_f_moon_passage_nodes_ascending.cc C15_f_moon_passage_nodes_ascending.C C15_f_moon_passage_nodes_ascending.v_jde_2.
 Proof. exact C15_f_moon_passage_nodes_ascending.ok. Qed.
 Theorem C15_moon_passage_nodes_descending : C15_f_moon_passage_nodes_descending.closed_stmt /\ timing C15_f_moon_passage_nodes_descending.J0 C15_f_moon_passage_nodes_descending.B C15_f_moon_passage_nodes_descending.cc C15_f_moon_passage_nodes_descending.C C15_f_moon_passage_nodes_descending.v_jde_2.
